@@ -476,6 +476,70 @@ func regCfg(repo string) (closeAtomic bool) {
 	return compareSpan > 0 && compareSpan == deleteSpan
 }
 
+// every call of `name` inside fd is a plain call: at least one exists and none sits under a go statement, a defer or a
+// function literal
+func plainCalls(fd *ast.FuncDecl, name string) bool {
+	if fd == nil {
+		return false
+	}
+	count, bad := 0, 0
+	var walk func(n ast.Node, detached bool)
+	walk = func(n ast.Node, detached bool) {
+		ast.Inspect(n, func(x ast.Node) bool {
+			switch v := x.(type) {
+			case *ast.GoStmt:
+				walk(v.Call, true)
+				return false
+			case *ast.DeferStmt:
+				walk(v.Call, true)
+				return false
+			case *ast.FuncLit:
+				if x != n {
+					walk(v.Body, true)
+					return false
+				}
+			case *ast.CallExpr:
+				if sel(v.Fun) == name {
+					count++
+					if detached {
+						bad++
+					}
+				}
+			}
+			return true
+		})
+	}
+	walk(fd.Body, false)
+	return count > 0 && bad == 0
+}
+
+// ---- the receiving data path: ship/handshake.go approveHandshake, ship/connection.go, ws/websocket.go readShipPump
+func pipeCfg(repo string) (flushSync, deliverSync bool) {
+	hs := parse(repo, "ship/handshake.go")
+	cn := parse(repo, "ship/connection.go")
+	wsf := parse(repo, "ws/websocket.go")
+	ap := funcDecl(hs, "approveHandshake")
+	// the reader is installed (assignment to dataReader) before the buffered datagrams are handed over by a plain call
+	if ap != nil {
+		installedAt, flushAt := -1, -1
+		for i, st := range ap.Body.List {
+			if as, ok := st.(*ast.AssignStmt); ok && len(as.Lhs) == 1 && sel(as.Lhs[0]) == "dataReader" {
+				installedAt = i
+			}
+			if es, ok := st.(*ast.ExprStmt); ok {
+				if c, ok := es.X.(*ast.CallExpr); ok && sel(c.Fun) == "processBufferedSpineMessages" {
+					flushAt = i
+				}
+			}
+		}
+		flushSync = installedAt >= 0 && flushAt > installedAt && plainCalls(ap, "processBufferedSpineMessages") &&
+			plainCalls(funcDecl(cn, "processBufferedSpineMessages"), "HandleShipPayloadMessage")
+	}
+	deliverSync = plainCalls(funcDecl(wsf, "readShipPump"), "HandleIncomingWebsocketMessage") &&
+		plainCalls(funcDecl(cn, "HandleIncomingWebsocketMessage"), "HandleShipPayloadMessage")
+	return
+}
+
 func containsCall(n ast.Node, name string) bool {
 	found := false
 	ast.Inspect(n, func(x ast.Node) bool {
@@ -940,6 +1004,10 @@ func main() {
 	{
 		a, b := avahiCfg(*repo)
 		files["AvahiFacts.lean"] = fmt.Sprintf("/- GENERATED by /verif/extract from /repo — do not edit. -/\nimport ShipVerif.Model.Avahi\nnamespace ShipVerif.Generated\n\n/-- mdns/avahi.go: design facts of the reconnect loop -/\ndef avahiCfg : ShipVerif.Avahi.Cfg := { reconnectRespectsShutdown := %v, reannounceCurrent := %v }\n\nend ShipVerif.Generated\n", a, b)
+	}
+	{
+		a, b := pipeCfg(*repo)
+		files["PipeFacts.lean"] = fmt.Sprintf("/- GENERATED by /verif/extract from /repo — do not edit. -/\nimport ShipVerif.Model.Pipe\nnamespace ShipVerif.Generated\n\n/-- ship/handshake.go approveHandshake, ship/connection.go HandleIncomingWebsocketMessage, ws/websocket.go readShipPump: design facts -/\ndef pipeCfg : ShipVerif.Pipe.Cfg := { flushSync := %v, deliverSync := %v }\n\nend ShipVerif.Generated\n", a, b)
 	}
 	files["RegFacts.lean"] = fmt.Sprintf("/- GENERATED by /verif/extract from /repo — do not edit. -/\nimport ShipVerif.Model.Reg\nnamespace ShipVerif.Generated\n\n/-- hub/hub_shipconnection.go HandleConnectionClosed: design facts -/\ndef regCfg : ShipVerif.Reg.Cfg := { closeAtomic := %v }\n\nend ShipVerif.Generated\n", regCfg(*repo))
 	files["AsyncFacts.lean"] = fmt.Sprintf("/- GENERATED by /verif/extract from /repo — do not edit. -/\nimport ShipVerif.Model.View\nnamespace ShipVerif.Generated\n\n/-- mdns/mdns.go: reports are delivered under a mutex and dropped when a newer snapshot was delivered -/\ndef mdnsReportCfg : ShipVerif.Async.Cfg := { guarded := %v }\n\nend ShipVerif.Generated\n", mdnsReportGuarded(*repo))
